@@ -25,7 +25,10 @@ Open Scope N_scope.
 (* the expression given to Timeout(...):  self.connect_timeout, self.command_timeout,
    self.data_timeout, self.timeout / self.relay.timeout, self.idle_timeout, anything else *)
 Inductive texpr : Type :=
-| TConnect | TCommand | TData | TSingle | TIdle | TOther (e : string).
+| TConnect | TCommand | TData | TSingle | TIdle | TOther (e : string)
+| TExpired.   (* not a Timeout(...) at all: the site lies in an `except` handler that catches
+                 Timeout (or in a `finally`), with no scope opened inside it -- it runs after a
+                 timer has fired, so neither an enclosing scope nor a caller's scope bounds it *)
 
 Inductive kind : Type :=
 | KConnect     (* socket_creator(address) *)
@@ -61,8 +64,11 @@ Definition needs_guard (k : kind) : bool :=
 Definition guard_expr (e : texpr) : bool :=
   match e with
   | TConnect | TCommand | TData | TSingle => true
-  | TIdle | TOther _ => false
+  | TIdle | TOther _ | TExpired => false
   end.
+
+Definition is_expired (sc : option (texpr * N)) : bool :=
+  match sc with Some (TExpired, _) => true | _ => false end.
 
 Definition scope_ok (sc : option (texpr * N)) : bool :=
   match sc with Some (e, _) => guard_expr e | None => false end.
@@ -86,10 +92,11 @@ Definition methods_of (cs : list site) : list string :=
   sdedup (map s_method cs ++ map s_callee (call_sites cs)) [].
 
 (* roots: methods nobody (in the scanned class) calls -- entry points such as _run,
-   handle, attempt, __init__ *)
+   handle, attempt, __init__ -- and methods called from a Timeout handler / finally *)
 Definition roots (cs : list site) : list string :=
   let called := map s_callee (call_sites cs) in
-  filter (fun m => negb (smem m called)) (methods_of cs).
+  sdedup (map s_callee (filter (fun s => is_expired (s_scope s)) (call_sites cs)))
+         (filter (fun m => negb (smem m called)) (methods_of cs)).
 
 (* one round: methods called, from a method already exposed, at a call site that is
    not inside a guard scope *)
@@ -106,7 +113,8 @@ Definition exposed_cs (cs : list site) : list string :=
   iter (List.length cs) (expose_step cs) (roots cs).
 
 Definition site_unguarded (ex : list string) (s : site) : bool :=
-  needs_guard (s_kind s) && negb (scope_ok (s_scope s)) && smem (s_method s) ex.
+  needs_guard (s_kind s) && negb (scope_ok (s_scope s))
+  && (smem (s_method s) ex || is_expired (s_scope s)).
 
 Definition classes (tbl : list site) : list string := sdedup (map s_class tbl) [].
 
@@ -125,7 +133,8 @@ Definition all_guarded (exc : list (string * string)) (tbl : list site) : bool :
 (* ---- the scope that bounds a method's blocking sites (for the client stages) *)
 Definition texpr_eqb (a b : texpr) : bool :=
   match a, b with
-  | TConnect, TConnect | TCommand, TCommand | TData, TData | TSingle, TSingle | TIdle, TIdle => true
+  | TConnect, TConnect | TCommand, TCommand | TData, TData | TSingle, TSingle | TIdle, TIdle
+  | TExpired, TExpired => true
   | TOther x, TOther y => String.eqb x y
   | _, _ => false
   end.
@@ -141,14 +150,18 @@ Fixpoint inherit (fuel : nat) (cs : list site) (m : string) : option texpr :=
   | S fuel' =>
       match filter (fun s => String.eqb (s_callee s) m) (call_sites cs) with
       | [] => None
-      | s :: _ => match own_scope s with Some e => Some e | None => inherit fuel' cs (s_method s) end
+      | s :: _ => match own_scope s with
+                  | Some e => Some e
+                  | None => if is_expired (s_scope s) then None else inherit fuel' cs (s_method s)
+                  end
       end
   end.
 
 Definition resolved (cs : list site) (ex : list string) (s : site) : option texpr :=
   match own_scope s with
   | Some e => Some e
-  | None => if smem (s_method s) ex then None else inherit (List.length cs) cs (s_method s)
+  | None => if smem (s_method s) ex || is_expired (s_scope s) then None
+            else inherit (List.length cs) cs (s_method s)
   end.
 
 Definition method_scope (tbl : list site) (c m : string) : option texpr :=
@@ -384,7 +397,7 @@ Definition scope_limit (cfg : ccfg) (sc : option texpr) : option N :=
   | Some TCommand => Some (t_command cfg)
   | Some TData => Some (t_data cfg)
   | Some TSingle => Some (t_single cfg)
-  | Some TIdle | Some (TOther _) | None => None
+  | Some TIdle | Some (TOther _) | Some TExpired | None => None
   end.
 
 Inductive coutcome : Type :=
